@@ -188,7 +188,10 @@ where
                 Poll::Pending => (),
             }
 
-            if server.is_some() {
+            if server.is_some() && buffered_rep.is_some() {
+                // The previous reply has not been handed to its requestor yet (a sink was
+                // not ready): do not take another one, it would overwrite the buffer
+            } else if server.is_some() {
                 let st = &mut server.as_mut().as_pin_mut().unwrap().1;
 
                 match st.poll_next_unpin(cx) {
